@@ -439,6 +439,17 @@ REQUIRED_STATE = {
 }
 
 
+def _first_real_stmt(fn):
+    """first statement that is not a docstring, `pass` or a logging call."""
+    for s_ in fn.body:
+        if isinstance(s_, ast.Pass):
+            continue
+        if isinstance(s_, ast.Expr) and (is_const(s_.value) or (isinstance(s_.value, ast.Call) and (dotted(s_.value.func) or '').split('.')[0] in ('logger', 'logging'))):
+            continue
+        return s_
+    return None
+
+
 def stream_fsm(ctx):
     R, p = ctx.r, ctx.p
     rule = 'C19.stream-fsm'
@@ -459,7 +470,7 @@ def stream_fsm(ctx):
         if want is None:
             R.ok(rule, f'bumble.avdtp.Stream.{name}', 'valid in every state (AVDTP 6.15/9.x)', p.loc(m))
             continue
-        first = next((x for x in m.body if not (isinstance(x, ast.Expr) and is_const(x.value))), None)
+        first = _first_real_stmt(m)
         got = None
         if isinstance(first, ast.If) and isinstance(first.test, ast.Compare) and norm(first.test.left) == 'self.state' and len(first.test.ops) == 1:
             op, rhs = first.test.ops[0], first.test.comparators[0]
